@@ -14,6 +14,7 @@
 #include <nitro/lang/fixed_vector.hpp>
 
 #include <array>
+#include <iterator>
 #include <optional>
 
 namespace h
@@ -44,6 +45,8 @@ enum Code
     DESTROY,
     EMPLACE_POS_ALIAS, // emplace(pos, v[k]): the argument refers to an element of the vector itself
     APPEND_ALIAS,      // emplace_back(v[k]) / insert(v[k]) / push_back(v[k])
+    EMPLACE_BACK_NOARGS, // emplace_back() with an empty argument pack: appends a default value
+    APPEND_INPUT_RANGE,  // push_back(first, last) / insert(end(), first, last) with single-pass iterators
     CODE_COUNT
 };
 
@@ -55,7 +58,8 @@ static const char* code_name(int c)
                                "push_back(range)", "insert(pos,range)", "insert(pos,list)",
                                "emplace(pos)", "erase",          "pop_back",      "at",
                                "std::get",    "write",          "destroy",
-                               "emplace(pos,self-element)", "append(self-element)" };
+                               "emplace(pos,self-element)", "append(self-element)",
+                               "emplace_back()", "append(single-pass range)" };
     return c >= 0 && c < CODE_COUNT ? n[c] : "?";
 }
 
@@ -150,6 +154,17 @@ std::string describe(const Case& c)
 // ---------------------------------------------------------------- generators
 
 static const int NSLOT = 3;
+
+// capacity code -> capacity: 0..6 are themselves, larger codes select sizes around powers of two
+static std::size_t capacity_of(int code)
+{
+    static const std::size_t big[] = { 7, 8, 9, 15, 16, 17, 31, 32, 33, 63, 64, 65, 100 };
+    if (code < 0)
+        return 0;
+    if (code <= 6)
+        return static_cast<std::size_t>(code);
+    return big[static_cast<std::size_t>(code - 7) % 13];
+}
 
 static std::vector<int> gen_vals(vf::Src& src, int lo, int hi, bool small)
 {
@@ -264,7 +279,9 @@ Case generate(vf::Src& src, const std::string& mode)
             3,  // WRITE
             2,  // DESTROY
             3,  // EMPLACE_POS_ALIAS
-            3   // APPEND_ALIAS
+            3,  // APPEND_ALIAS
+            3,  // EMPLACE_BACK_NOARGS
+            3   // APPEND_INPUT_RANGE
         }));
         op.code = w;
         if (i == 0)
@@ -273,10 +290,17 @@ Case generate(vf::Src& src, const std::string& mode)
         {
         case CONSTRUCT:
             op.b = static_cast<int>(src.weighted({ 15, 15, 15, 15, 15, 10, 15 })); // capacity 0..6
+            if (src.coin(8))
+                op.b = 7 + src.irange(0, 12); // now and then a capacity around a power of two
             break;
         case CONSTRUCT_ITER:
             op.b = src.irange(0, 6);
             op.vals = gen_vals(src, 0, 7, false);
+            if (src.coin(8))
+            {
+                op.b = 7 + src.irange(0, 12);
+                op.vals = gen_vals(src, 0, 70, false);
+            }
             break;
         case CONSTRUCT_LIST:
         case LIST_ASSIGN:
@@ -296,6 +320,8 @@ Case generate(vf::Src& src, const std::string& mode)
             break;
         case PUSH_BACK_RANGE:
             op.vals = gen_vals(src, 0, 4, false);
+            if (src.coin(10))
+                op.vals = gen_vals(src, 5, 70, false); // bulk append (fills the large capacities)
             break;
         case INSERT_RANGE:
         case INSERT_LIST:
@@ -303,20 +329,24 @@ Case generate(vf::Src& src, const std::string& mode)
             op.vals = gen_vals(src, 0, 4, false);
             break;
         case EMPLACE_POS:
-            op.b = src.irange(0, 8);
+            op.b = src.coin(85) ? src.irange(0, 8) : src.irange(0, 110);
             op.vals = gen_vals(src, 1, 1, false);
             break;
         case ERASE:
         case AT:
         case GET:
         case WRITE:
-            op.b = src.irange(0, 8);
+            op.b = src.coin(85) ? src.irange(0, 8) : src.irange(0, 110);
             op.vals = gen_vals(src, 1, 1, false);
             break;
         case EMPLACE_POS_ALIAS:
         case APPEND_ALIAS:
             op.b = src.irange(0, 8);            // position / spelling
             op.vals = { src.irange(0, 8) };     // index of the element passed as argument
+            break;
+        case APPEND_INPUT_RANGE:
+            op.b = src.irange(0, 1);
+            op.vals = gen_vals(src, 0, 5, false);
             break;
         default:
             break;
@@ -333,6 +363,47 @@ Case generate(vf::Src& src, const std::string& mode)
 }
 
 // ------------------------------------------------------------------ interpreter
+
+// a single-pass (input) iterator over a shared cursor: copies advance together, a range can be
+// walked exactly once (like std::istream_iterator)
+template <class T>
+struct OnePass
+{
+    using iterator_category = std::input_iterator_tag;
+    using value_type = T;
+    using difference_type = std::ptrdiff_t;
+    using pointer = const T*;
+    using reference = const T&;
+    std::shared_ptr<std::size_t> cursor; // null = end
+    const std::vector<T>* src = nullptr;
+    bool at_end() const
+    {
+        return !cursor || *cursor >= src->size();
+    }
+    const T& operator*() const
+    {
+        return (*src)[*cursor];
+    }
+    OnePass& operator++()
+    {
+        ++*cursor;
+        return *this;
+    }
+    OnePass operator++(int)
+    {
+        OnePass old = *this;
+        ++*cursor;
+        return old;
+    }
+    bool operator==(const OnePass& o) const
+    {
+        return at_end() == o.at_end();
+    }
+    bool operator!=(const OnePass& o) const
+    {
+        return !(*this == o);
+    }
+};
 
 struct Model
 {
@@ -693,7 +764,7 @@ bool Runner<T>::step(const Op& op0, std::size_t index)
         {
         case CONSTRUCT:
         {
-            std::size_t capn = static_cast<std::size_t>(op.b < 0 ? 0 : op.b % 7);
+            std::size_t capn = capacity_of(op.b);
             slot[a].reset();
             model[a] = Model();
             slot[a].reset(new FV(capn));
@@ -704,7 +775,7 @@ bool Runner<T>::step(const Op& op0, std::size_t index)
         }
         case CONSTRUCT_ITER:
         {
-            std::size_t capn = static_cast<std::size_t>(op.b < 0 ? 0 : op.b % 7);
+            std::size_t capn = capacity_of(op.b);
             if (c07 && op.vals.size() > capn)
                 op.vals.resize(capn);
             expect_raise = op.vals.size() > capn;
@@ -1043,6 +1114,45 @@ bool Runner<T>::step(const Op& op0, std::size_t index)
             }
             break;
         }
+        case EMPLACE_BACK_NOARGS:
+        {
+            expect_raise = sz >= cap;
+            after.v.push_back(0); // a value-initialised element
+            tr::reg().default_is_caller = true;
+            struct Reset
+            {
+                ~Reset()
+                {
+                    tr::reg().default_is_caller = false;
+                }
+            } reset_flag;
+            slot[a]->emplace_back();
+            break;
+        }
+        case APPEND_INPUT_RANGE:
+        {
+            if (!T::copyable)
+            {
+                tr::reg().countdown = 0;
+                return true;
+            }
+            if (c07 && op.vals.size() > cap - sz)
+                op.vals.resize(cap - sz);
+            expect_raise = op.vals.size() > cap - sz;
+            after.v.insert(after.v.end(), op.vals.begin(), op.vals.end());
+            if constexpr (T::copyable)
+            {
+                std::vector<T> src;
+                for (int v : op.vals)
+                    src.emplace_back(v);
+                OnePass<T> first{ std::make_shared<std::size_t>(0), &src }, last{ nullptr, &src };
+                if (op.b % 2)
+                    slot[a]->push_back(first, last);
+                else
+                    slot[a]->insert(slot[a]->end(), first, last);
+            }
+            break;
+        }
         case DESTROY:
             slot[a].reset();
             after = Model();
@@ -1114,7 +1224,7 @@ bool Runner<T>::step(const Op& op0, std::size_t index)
         bool single = code == EMPLACE_BACK || code == INSERT_CREF || code == INSERT_RVAL ||
                       code == PUSH_BACK_CREF || code == EMPLACE_POS || code == ERASE ||
                       code == POP_BACK || code == AT || code == GET || code == EMPLACE_POS_ALIAS ||
-                      code == APPEND_ALIAS;
+                      code == APPEND_ALIAS || code == EMPLACE_BACK_NOARGS;
         if (code == CONSTRUCT_ITER)
         {
             // constructor raised: there is no object
